@@ -186,23 +186,80 @@ def mutators(run, fx):
         run.held('MUTATORS', 'whole-slot memcpy', '', 'only %s' % sorted(users), False)
 
 
+def _before_in_iteration(fn, header, a, b):
+    """within one iteration of the loop at `header`, element a is executed before element b (a reaches b without going through
+    the header)"""
+    ba, bb = fn.block_of[a['i']], fn.block_of[b['i']]
+    if ba == bb:
+        return fn.pos_of[a['i']] < fn.pos_of[b['i']]
+    seen, st = set(), [s for s in fn.succs(ba) if s is not None]
+    while st:
+        x = st.pop()
+        if x in seen or x == header:
+            continue
+        seen.add(x)
+        if x == bb:
+            return True
+        st.extend(s for s in fn.succs(x) if s is not None)
+    return False
+
+
 def index(run, fx):
+    """slot numbering: one traversal of the stream (s = s->next()) in which every iteration hands exactly one value of a counter to
+    Slot::index, the counter starts at 0, is only ever stepped by one, once per iteration, and not before its value was handed over"""
+    from .util import loops_around, every_iteration_passes, reaches_avoiding
     ac = fx.one('graphite2::Segment::associateChars')
     idx = [e for e in calls_in(ac, 'graphite2::Slot::index') if e.get('args')]
-    ok = False
+    ok, why = False, 'no Slot::index(value) call'
     for e in idx:
-        a = ac.render(ac.N(e['args'][0])).replace(' ', '')
-        _, d = find_decl(ac, 'i')
-        init0 = d is not None and d.get('init') is not None and ac.strip_all_casts(d['init']).get('v') == 0
+        a = ac.strip_all_casts(e['args'][0])
+        inc_in_arg = a['k'] == 'UnaryOperator' and a.get('op') == 'post++'
+        ctr = ac.strip_all_casts(a['c'][0]) if a['k'] == 'UnaryOperator' and a.get('c') else a
+        if ctr['k'] != 'DeclRefExpr' or ctr.get('vid') is None:
+            why = 'the value handed to Slot::index is `%s`, not a counter' % ac.render(a)
+            continue
+        vid = ctr['vid']
+        inits = [x_ for _, d in ac.elements() if d['k'] == 'DeclStmt' for x_ in d.get('decls', []) if x_.get('vid') == vid]
+        init0 = len(inits) == 1 and inits[0].get('init') is not None and ac.strip_all_casts(inits[0]['init']).get('v') == 0
+        mods = []
+        for _, u in ac.elements():
+            if u.get('c') and u['c'][0] is not None and ac.strip_all_casts(u['c'][0])['k'] == 'DeclRefExpr' and ac.strip_all_casts(u['c'][0]).get('vid') == vid:
+                if u['k'] == 'UnaryOperator' and u.get('op') in ('pre++', 'post++', 'pre--', 'post--'):
+                    mods.append((u, u['op'] in ('pre++', 'post++')))
+                elif u['k'] == 'CompoundAssignOperator':
+                    mods.append((u, u.get('op') == '+=' and ac.strip_all_casts(u['c'][1]).get('v') == 1))
+                elif u['k'] == 'BinaryOperator' and u.get('op') == '=':
+                    mods.append((u, False))
         b = ac.block_of[e['i']]
-        in_loop = b in ac.reachable_from(ac.succs(b)[0]) if ac.succs(b) else False
-        nxt = [x for x in ac.blocks[b]['el'] if x['k'] == 'BinaryOperator' and x['op'] == '=' and 'next()' in ac.render(x)]
-        if a == 'i++' and init0 and in_loop and nxt:
-            ok = True
-            run.held('INDEX', 'associateChars numbering', ac.loc(e), 's->index(i++) and s = s->next() in the increment of the single stream traversal, i = 0')
+        ls = loops_around(ac, b)
+        if not init0:
+            why = 'the counter does not start at 0'
+        elif len(mods) != 1 or not mods[0][1]:
+            why = 'the counter is modified %d times / not by a single step of one' % len(mods)
+        elif not ls:
+            why = 'Slot::index is not called in a loop'
+        else:
+            h = ls[0]
+            inc = mods[0][0]
+            steps = [x for x in ac.blocks if ac.blocks[x]['el'] and h in loops_around(ac, x)[:1] for y in ac.blocks[x]['el']
+                     if y['k'] == 'BinaryOperator' and y.get('op') == '=' and 'next()' in ac.render(y, resolve=True)]
+            hcond = ac.term_cond(h)
+            if loops_around(ac, ac.block_of[inc['i']])[:1] != [h]:
+                why = 'the counter is stepped in another loop than the one that numbers the slots'
+            elif not every_iteration_passes(ac, h, b) or not every_iteration_passes(ac, h, ac.block_of[inc['i']]):
+                why = 'an iteration of the traversal can skip the numbering or the step of the counter'
+            elif not steps:
+                why = 'the numbering loop does not advance with s = s->next()'
+            elif not inc_in_arg and inc is not a and reaches_avoiding(ac, inc, e, [y for y in ac.blocks[h]['el']] or []) and \
+                    not (ac.block_of[inc['i']] == b and ac.pos_of[inc['i']] > ac.pos_of[e['i']]) and \
+                    (ac.block_of[inc['i']] == b and ac.pos_of[inc['i']] < ac.pos_of[e['i']] or _before_in_iteration(ac, h, inc, e)):
+                why = 'the counter is stepped before its value is handed to Slot::index (numbering would start at 1)'
+            else:
+                ok = True
+                run.held('INDEX', 'associateChars numbering', ac.loc(e), 'one Slot::index(counter) and one step of the counter per iteration of the stream traversal, counter = 0 at the start')
+                break
     if not ok:
-        run.violated('INDEX', 'associateChars numbering', ac.where(), 'associateChars no longer numbers the slots 0,1,2,.. on one traversal of the stream '
-                     '(s->index(i++) with s = s->next() in the same loop step, i starting at 0)')
+        run.violated('INDEX', 'associateChars numbering', ac.where(), 'associateChars no longer numbers the slots 0,1,2,.. on one traversal of the stream: %s' % why)
     ws = sorted(set(fn.q for fn, e in callers_of(fx, 'graphite2::Slot::index') if e.get('args')))
     fws = sorted(set(fn.q for fn, e, k in field_writes(fx).get('graphite2::Slot::m_index', [])) - {'graphite2::Slot::Slot', 'graphite2::Slot::index'})
     if ws == ['graphite2::Segment::associateChars'] and not fws:
@@ -332,7 +389,7 @@ def run(run):
     c02.growth(run, vm)
     index(run, fx)
     from . import width
-    width.no_narrow(run, fx, 'INDEX', ['graphite2::Slot::m_index', 'graphite2::Segment::m_numGlyphs'])
+    width.no_narrow(run, fx, 'INDEX', [('Slot::index', 'graphite2::Slot::index'), 'graphite2::Segment::m_numGlyphs'])
     nomutpos(run, vm)
     gidclamp(run, fx)
     run.assume('pre-state of each mutator is a well-formed stream (the rules are the preservation step of an induction; the base case is '
